@@ -20,7 +20,10 @@ pub fn replay(case: &Value) -> Vec<Obs> {
         }
     }
     let path = format!("reader_tmp_{}.txt", std::process::id());
-    let mut text = lines.join("\n"); text.push('\n');
+    // (every other layout is written without the final newline, every fifth with Windows line ends)
+    let mut text = lines.join("\n");
+    if text.len() % 2 == 0 { text.push('\n'); }
+    if text.len() % 5 == 0 { text = text.replace('\n', "\r\n"); }
     if std::fs::write(&path, &text).is_err() { return vec![Obs::bad("TOOL", "write", path)]; }
     let mut kb = KnowledgeBase::new();
     let res = catch_unwind(AssertUnwindSafe(|| load_kb_from_file(&mut kb, &path)));
@@ -42,7 +45,7 @@ pub fn replay(case: &Value) -> Vec<Obs> {
 
 /// The knowledge base rule for rule (per predicate, in order), as structure: two rules that print alike
 /// but differ in what was parsed (an atom `5` for the integer 5) are different.
-fn structure(kb: &KnowledgeBase) -> std::collections::BTreeMap<String, Vec<String>> {
+pub fn structure(kb: &KnowledgeBase) -> std::collections::BTreeMap<String, Vec<String>> {
     let mut m = std::collections::BTreeMap::new();
     for (k, rules) in kb.iter() {
         m.insert(k.clone(), rules.iter().map(|r| format!("{} :- {}", serde_json::to_string(&crate::term::tm_to_json(&crate::term::project(&r.head))).unwrap(),
